@@ -988,7 +988,11 @@ func runCase(c corr.Case) corr.Result {
 				end := i + 1
 				isInit := func(l string) bool { // a line that re-initialises everything ends an open block (as in the oracle)
 					f := strings.Fields(l)
-					return (len(f) == 2 && (f[0] == "new" || f[0] == "newi")) || (len(f) == 1 && f[0] == "neww")
+					if len(f) == 2 && (f[0] == "new" || f[0] == "newi") {
+						d, ok := pNat(f[1])
+						return ok && d >= 2 && d <= 256
+					}
+					return len(f) == 1 && f[0] == "neww"
 				}
 				for end < len(c.Lines) && strings.TrimSpace(c.Lines[end]) != "parend" && !isInit(c.Lines[end]) {
 					end++
